@@ -387,5 +387,5 @@ func trimList(xs []string) []string {
 }
 
 func TestC04(t *testing.T) {
-	drv.Main(t, drv.Driver{ID: "C04", Gen: gen04, Run: run04, CaseTimeout: 5 * time.Minute})
+	drv.Main(t, drv.Driver{ID: "C04", Gen: gen04, Run: run04, CaseTimeout: 30 * time.Minute})
 }
